@@ -78,4 +78,10 @@ TEXT.update({
   note="Partial: memory model/scheduler/sync.Map trusted; race detector sees executed schedules only; alias writes are invisible to the syntactic ledger.",
  ),
 })
+TEXT.update({
+ "C10": dict(
+  level="Theorem: the model's Validate returns Ok or Err (never Panic / OutOfFuel) whenever the specification defines a verdict, and an unsupported $schema is an error. Every explicit panic/assert site of the sources is accounted for by the obligation gen/ObPanics.v (regenerated on every run). All other entry points and the adversarial inputs are decided by correspondence: outcome classes (ok/err/panic/hang) of families ref, dyn, ptr, repr against the model, and the law 'every call returns' of family robust (arbitrary bytes, malformed Schema graphs, hostile loaders, odd Go values, recursive and unsupported types).",
+  note="Partial: totality proved for Validate only; the rest is differential/robustness testing with panic and hang detection.",
+ ),
+})
 PENDING = {}
